@@ -211,8 +211,17 @@ def copyInplace : Prog := ⟨[.copy 1 0, .inplace opMul 1 []], 1⟩
 /-- `PeriodicOpticalElement`: copies, then hands the copy to an apodizer (which copies again). -/
 def copyThenCopyInplace : Prog := ⟨[.copy 1 0, .copy 2 1, .inplace opMul 2 []], 2⟩
 
-/-- `Magnifier`: copy, replace the copy's grid, scale the copy in place. -/
-def magnifier : Prog := ⟨[.copy 1 0, .setAttrConst 1 .grid 1, .inplace opMul 1 []], 1⟩
+/-- `Magnifier`: `wf = wavefront.copy(); wf.electric_field.grid = wf.electric_field.grid.scaled(m)`
+(`scaled` = `copy()` then `scale` in place); then the copy's field is scaled in place. -/
+def magnifier : Prog :=
+  ⟨[.copy 1 0, .copyAttr 1 .grid, .inplaceAttr opMul 1 .grid, .inplace opMul 1 []], 1⟩
+
+/-- **Defect class** (mutant M8, seeded C06-7): a result that points to the caller's grid object, and
+a rescaling of that grid in place — field arrays untouched, the input's grid rewritten. -/
+def scaleSharedGridOld : Prog := ⟨[.newFrom 1 opProp [0] 0, .inplaceAttr opMul 1 .grid], 1⟩
+
+/-- **Defect class** (mutant M7): the Stokes vector of the argument updated in place. -/
+def stokesInplaceOld : Prog := ⟨[.inplaceAttr opMul 0 .stokes, .newFrom 1 opJones [0] 0], 1⟩
 
 /-- propagators, fibres, Jones elements on scalar input: `return Wavefront(Field(f(E)), …)`. -/
 def newFrom : Prog := ⟨[.newFrom 1 opProp [0] 0], 1⟩
@@ -403,6 +412,8 @@ def programs : List (String × Prog) :=
 
 def programByName (n : String) : Option Prog :=
   if n == "vvcBwdScalarOld" then some vvcBwdScalarOld
+  else if n == "scaleSharedGridOld" then some scaleSharedGridOld
+  else if n == "stokesInplaceOld" then some stokesInplaceOld
   else (programs.find? (·.1 == n)).map (·.2)
 
 
